@@ -117,6 +117,10 @@ def main():
                "files_changed": meta.get("files_changed"), "demo_dest": a.dest, "demo_cmd": a.cmd,
                "confirmed_by_me": {k: res[k] for k in ("demo_without_patch", "patch_applies", "builds", "baseline", "baseline_ok") if k in res},
                "demo_with_patch": res["demo_with_patch"][:600], "check_runs": runs}
+        # a later run with --skip-baseline keeps the baseline result of the run that did confirm it
+        for k in ("baseline", "baseline_ok"):
+            if k not in out["confirmed_by_me"] and k in old.get("confirmed_by_me", {}):
+                out["confirmed_by_me"][k] = old["confirmed_by_me"][k]
         json.dump(out, open(os.path.join(d, "meta.json"), "w"), indent=1)
 
 
